@@ -182,6 +182,37 @@ Definition C_NONE : N := 0.      Definition C_INVALID : N := 1.   Definition C_T
 Definition C_UNPROCESSABLE : N := 3.  Definition C_INTERNAL : N := 4.  Definition C_NOT_FOUND : N := 5.
 Definition C_FORBIDDEN : N := 6.
 
+(** storage.LoggingPointsWriter (the wrapper the launcher puts between the handler and the
+    engine): [LNone] = not installed; [LWrap finder logok]: BucketFinder.FindBuckets for the log
+    bucket answers 0 = found, 1 = none, 2 = error; [logok] = the write of the write_errors point
+    succeeds. *)
+Inductive logw := LNone | LWrap (finder : N) (logok : bool).
+(** what the handler gets back from PointsWriter.WritePoints *)
+Inductive weff := EOk | EPartial (dropped : N) | EOther.
+Definition eff_of (w : wres) : weff := match w with WOk => EOk | WPartial d => EPartial d | WErr => EOther end.
+
+(** func (w *LoggingPointsWriter) WritePoints:
+      if len(p) == 0 { return nil }                          // the engine is NOT called
+      err := w.Underlying.WritePoints(...); if err == nil { return nil }
+      bkts, n, e := w.BucketFinder.FindBuckets(...)          // e != nil -> return e;  n == 0 -> a new error
+      pt, e := models.NewPoint("write_errors", ...)
+      if e := w.Underlying.WritePoints(ctx, orgID, bkts[0].ID, pt); e != nil { return e }
+      return err                                             // the ORIGINAL error
+    Result: what the handler sees, and whether the engine was called with the batch. *)
+Definition logging_write (lg : logw) (w : wres) (npoints : nat) : weff * bool :=
+  match lg with
+  | LNone => (eff_of w, true)
+  | LWrap finder logok =>
+    match npoints with
+    | O => (EOk, false)
+    | _ =>
+      match w with
+      | WOk => (EOk, true)
+      | _ => if (finder =? 0)%N && logok then (eff_of w, true) else (EOther, true)
+      end
+    end
+  end.
+
 Record request := {
   q_auth : bool;          (* an Authorizer is on the context *)
   q_prec_valid : bool;    (* models.ValidPrecision(precision or "ns") *)
@@ -193,7 +224,8 @@ Record request := {
   q_prec : precision;
   q_limit : Z;            (* maxBatchSizeBytes *)
   q_stream : ustream;     (* what the LimitedReadCloser wraps: the DECODED body *)
-  q_writer : wres         (* what the PointsWriter will answer *)
+  q_writer : wres;        (* what the underlying PointsWriter (the engine) will answer for the batch *)
+  q_logger : logw         (* is storage.LoggingPointsWriter in front of it, and how its logging goes *)
 }.
 
 Record response := {
@@ -236,11 +268,13 @@ Definition handle (script : list (nat * nat)) (q : request) : response :=
                      r_dropped := None; r_calls := [] |}
       | [] =>
         let call := map point_obs pts in
-        match q_writer q with
-        | WOk => {| r_status := 204; r_code := C_NONE; r_rejected := []; r_dropped := None; r_calls := [call] |}
-        | WPartial d => {| r_status := 422; r_code := C_UNPROCESSABLE; r_rejected := [];
-                           r_dropped := Some d; r_calls := [call] |}
-        | WErr => {| r_status := 500; r_code := C_INTERNAL; r_rejected := []; r_dropped := None; r_calls := [call] |}
+        let '(eff, called) := logging_write (q_logger q) (q_writer q) (length pts) in
+        let calls := if called then [call] else [] in
+        match eff with
+        | EOk => {| r_status := 204; r_code := C_NONE; r_rejected := []; r_dropped := None; r_calls := calls |}
+        | EPartial d => {| r_status := 422; r_code := C_UNPROCESSABLE; r_rejected := [];
+                           r_dropped := Some d; r_calls := calls |}
+        | EOther => {| r_status := 500; r_code := C_INTERNAL; r_rejected := []; r_dropped := None; r_calls := calls |}
         end
       end
     end
@@ -272,11 +306,13 @@ Definition oracle_main (q : request) (r : response) : bool :=
         | _ :: _ => (r_status r =? 400)%N && no_calls r
                     && list_eqb bytes_eqb (r_rejected r) (map fst errs)
         | [] =>
-          calls_eqb (r_calls r) [map point_obs pts]
+          (calls_eqb (r_calls r) [map point_obs pts]
+           || (match pts with [] => no_calls r | _ => false end))   (* nothing to store *)
           && match q_writer q with
              | WOk => (r_status r =? 204)%N
-             | WPartial d => (400 <=? r_status r)%N && optN_eqb (r_dropped r) (Some d)
-             | WErr => (400 <=? r_status r)%N
+             | WPartial d => (no_calls r && (r_status r =? 204)%N)   (* the engine was never asked *)
+                             || ((400 <=? r_status r)%N && optN_eqb (r_dropped r) (Some d))
+             | WErr => (no_calls r && (r_status r =? 204)%N) || (400 <=? r_status r)%N
              end
         end
     end
@@ -298,6 +334,7 @@ Record case := {
   c_stall : N;                    (* (0, nil) answers of the scripted reader before its EOF *)
   c_script : list N;              (* chunk sizes the scripted body reader used (minus 1) *)
   c_writer : N; c_wdropped : N;   (* 0 ok, 1 partial(dropped), 2 other error *)
+  c_logger : option (N * bool);   (* LoggingPointsWriter installed: (finder answer, log write ok) *)
   (* observed on the real handler *)
   o_status : N; o_code : N; o_rejected : list (list seg); o_dropped : option N;
   o_calls : list (list (list seg * Z))
@@ -312,7 +349,8 @@ Definition request_of (c : case) (eager : bool) : request :=
      q_perm := c_perm c; q_prec := prec_of_code (c_prec c); q_limit := c_limit c;
      q_stream := {| u_rem := expand (c_body c); u_end := endk_of (c_end c); u_eager := eager;
                      u_stall := N.to_nat (c_stall c) |};
-     q_writer := wres_of (c_writer c) (c_wdropped c) |}.
+     q_writer := wres_of (c_writer c) (c_wdropped c);
+     q_logger := match c_logger c with None => LNone | Some (f, ok) => LWrap f ok end |}.
 
 (** a point without timestamp gets time.Now() in the code and [DFLT] (truncated to the
     precision) in the model *)
